@@ -6,7 +6,7 @@
     PublisherConfig, every answer script of the wrapped publisher, every sequence of calls over a
     heap of (possibly re-published) objects, every emit/Ack/Nack/Close sequence, every sequence of
     handler outcomes. *)
-From WM Require Import Base.Prelude Message.Model Decor.Model Decor.Monitor Decor.Proofs Decor.SubProofs.
+From WM Require Import Base.Prelude Message.Model Decor.Model Decor.Monitor Decor.Proofs Decor.SubProofs Decor.SubAccept.
 
 (** ** publisher decorators are transparent *)
 
@@ -190,6 +190,25 @@ Theorem C20_received_counted_once : forall stk heap ops i m,
   else [].
 Proof. exact received_counted_once. Qed.
 
+(** the aggregated counter table: label by label the model's log has exactly the specified
+    counts (one per delivered and settled object), for every stack — also one without the metrics
+    decorator, which observes nothing *)
+Theorem C20_received_table_counts : forall stk heap ops l,
+  forallb sfresh heap = true ->
+  count slabel_eqb l (map sobs_label (sw_obs (srun stk heap ops)))
+  = count slabel_eqb l (spec_sub_obs stk heap ops).
+Proof. exact srun_counts. Qed.
+
+(** every run of the model — any stack, any heap of fresh objects, any emit/Ack/Nack/Close
+    sequence incl. re-deliveries — is accepted by the acceptor that judges the implementation:
+    delivery order, one transform pass per delivery, final settlements, Close, counter table *)
+Theorem C20_subscribe_model_accepted : forall stk heap ops crets tab,
+  forallb sfresh heap = true ->
+  length crets = count_closes ops ->
+  counts_agree slabel_eqb tab (map sobs_label (sw_obs (srun stk heap ops))) = true ->
+  sub_monitor stk heap ops (sseen_of_run stk heap ops crets tab) = true.
+Proof. exact sub_monitor_model. Qed.
+
 (** ** handler middleware *)
 
 (** (repaired code) applied once: every invocation counted exactly once; success="true" exactly
@@ -237,6 +256,8 @@ Print Assumptions C20_settlement_transparent.
 Print Assumptions C20_settlement_first_wins.
 Print Assumptions C20_subscriber_close_once.
 Print Assumptions C20_received_counted_once.
+Print Assumptions C20_received_table_counts.
+Print Assumptions C20_subscribe_model_accepted.
 Print Assumptions C20_handler_counted_once.
 Print Assumptions C20_handler_acceptor_sound.
 Print Assumptions C20_handler_layers.
